@@ -488,6 +488,10 @@ impl Disk {
         let mut curr = *initial;
         let max_clusters = self.boot_sector.cluster_count_usable() as usize;
         for _i in 0..max_clusters {
+            if !self.clus_in_rng(curr.unwrap()) {
+                error!("cluster {} out of range while getting data",curr.unwrap());
+                return Err(Box::new(Error::BadFAT));
+            }
             let mut data: Vec<u8> = vec![0;self.boot_sector.block_size() as usize];
             self.read_block(&mut data, curr.unwrap(), 0)?;
             ans.append(&mut data);
